@@ -21,6 +21,12 @@ func emitCase(e *Env, m M) {
 	}
 	m["ev"] = "case"
 	m["id"] = caseID
+	// decimal texts also as byte arrays (TLC cannot take a JSON string apart)
+	for _, k := range []string{"ts", "np", "sid"} {
+		if v, ok := m[k].(string); ok {
+			m[k+"t"] = B(v)
+		}
+	}
 	e.Rec.Emit(m)
 }
 
@@ -618,6 +624,7 @@ func rowsCase(e *Env, cfg WireCfg, t *Table, kind string, rows []RowPair, extra 
 		arows = append(arows, M{"b": cellsJ(r.B, t), "a": cellsJ(r.A, t)})
 	}
 	emitCase(e, M{"fn": "rows", "cls": cls, "kind": kind, "v2": cfg.RowsV2, "tidw": cfg.TidW, "cksum": cfg.Checksum, "extra": len(extra),
+		"extrab": B(extra), "evbytes": B(raw), "tidtext": B(strconv.FormatUint(t.ID, 10)),
 		"tid": strconv.FormatUint(t.ID, 10), "cols": colsJ(t.Cols), "pb": boolBits(pb), "pa": boolBits(pa), "rows": arows, "obs": obs})
 }
 
@@ -805,6 +812,7 @@ func modeC15a(e *Env) {
 			obs["db"], obs["name"], obs["types"], obs["metas"], obs["nullable"] = B(nil), B(nil), []int{}, []int{}, []int{}
 		}
 		emitCase(e, M{"fn": "tablemap", "cls": "tablemap", "tidw": cfg.TidW, "cksum": cfg.Checksum, "tid": strconv.FormatUint(t.ID, 10),
+			"tail": B(tail), "evbytes": B(raw), "tidtext": B(strconv.FormatUint(t.ID, 10)),
 			"db": B(t.DB), "name": B(t.Name), "cols": colsJ(t.Cols), "taillen": len(tail), "obs": obs})
 	}
 }
@@ -878,7 +886,8 @@ func modeC16(e *Env) {
 				ts, sid, np = []uint32{0, 1, 1<<31 - 1, 1 << 31, 1<<32 - 1}[e.R.Intn(5)], []uint32{0, 1<<32 - 1, 1 << 31}[e.R.Intn(3)], []uint32{0, 4, 1<<32 - 1, 1 << 31}[e.R.Intn(4)]
 			}
 			// FORMAT_DESCRIPTION
-			fb := fdeBody(cfg, e.R.Uint32(), byte(alg))
+			fcreate := e.R.Uint32()
+			fb := fdeBody(cfg, fcreate, byte(alg))
 			fraw := mkEvent(ts, tFormatDesc, sid, np, flags, fb, true)
 			fev := replication.NewMysql56BinlogEvent(fraw)
 			var f replication.BinlogFormat
@@ -889,6 +898,7 @@ func modeC16(e *Env) {
 				hs = append(hs, int(b))
 			}
 			emitCase(e, M{"fn": "ev.fde", "cls": "fde", "alg": alg, "ts": u32s(ts), "sid": u32s(sid), "np": u32s(np), "len": len(fraw),
+				"flags": int(flags), "create4": B(le32(fcreate)), "raw": B(fraw),
 				"srvver": B(cfg.SrvVer), "sizes": B(cfg.postHeaderLens()),
 				"obs": M{"err": ferr != nil, "panic": rec.panicked, "valid": fev.IsValid(), "isfde": fev.IsFormatDescription(), "ts": u32s(fev.Timestamp()),
 					"np": strconv.FormatInt(fev.NextPosition(), 10), "version": int(f.FormatVersion), "srvver": B(f.ServerVersion), "hlen": int(f.HeaderLength),
@@ -898,15 +908,17 @@ func modeC16(e *Env) {
 			}
 			crc := alg == 1
 			lastValid := false
+			var lastRaw []byte
 			dec := func(typ byte, body []byte) replication.BinlogEvent {
 				raw := mkEvent(ts, typ, sid, np, flags, body, crc)
+				lastRaw = raw
 				ev := replication.NewMysql56BinlogEvent(raw)
 				lastValid = ev.IsValid()
 				ev, _, _ = ev.StripChecksum(f)
 				return ev
 			}
 			hdr := func(ev replication.BinlogEvent) M {
-				return M{"valid": lastValid, "ts": u32s(ev.Timestamp()), "np": strconv.FormatInt(ev.NextPosition(), 10)}
+				return M{"valid": lastValid, "ts": u32s(ev.Timestamp()), "np": strconv.FormatInt(ev.NextPosition(), 10), "raw": B(lastRaw)}
 			}
 			// ROTATE
 			rname := string(randBytes(e.R, pick(e.R, 1, 16, 255, e.R.Intn(100)+1)))
@@ -918,7 +930,7 @@ func modeC16(e *Env) {
 			rec = safely(func() { gotName, gotPos, rerr = rev.Rotate(f) })
 			o := hdr(rev)
 			o["err"], o["panic"], o["is"], o["file"], o["pos"] = rerr != nil, rec.panicked, rev.IsRotate(), B(gotName), B(strconv.FormatUint(uint64(gotPos), 10))
-			emitCase(e, M{"fn": "ev.rotate", "cls": "rotate", "alg": alg, "ts": u32s(ts), "np": u32s(np), "file": B(rname), "pos": B(strconv.FormatUint(rpos, 10)), "obs": o})
+			emitCase(e, M{"fn": "ev.rotate", "cls": "rotate", "alg": alg, "ts": u32s(ts), "np": u32s(np), "sid": u32s(sid), "flags": int(flags), "file": B(rname), "pos": B(strconv.FormatUint(rpos, 10)), "obs": o})
 			// QUERY
 			vars, cs, codes := statusVars(e.R)
 			db := string(randBytes(e.R, pick(e.R, 0, 1, 255, e.R.Intn(64))))
@@ -928,7 +940,8 @@ func modeC16(e *Env) {
 				}
 			}
 			sql := string(randBytes(e.R, pick(e.R, 0, 1, 64, e.R.Intn(300), e.N(2000, 65536))))
-			qev := dec(tQuery, queryBody(e.R.Uint32(), e.R.Uint32(), db, uint16(e.R.Intn(65536)), vars, sql))
+			qthread, qexec, qerr16 := e.R.Uint32(), e.R.Uint32(), uint16(e.R.Intn(65536))
+			qev := dec(tQuery, queryBody(qthread, qexec, db, qerr16, vars, sql))
 			var q replication.Query
 			var qerr error
 			rec = safely(func() { q, qerr = qev.Query(f) })
@@ -938,12 +951,15 @@ func modeC16(e *Env) {
 				ocs = []int{int(q.Charset.Client), int(q.Charset.Conn), int(q.Charset.Server)}
 			}
 			o["err"], o["panic"], o["is"], o["db"], o["sql"], o["charset"] = qerr != nil, rec.panicked, qev.IsQuery(), B(q.Database), B(q.SQL), ocs
-			emitCase(e, M{"fn": "ev.query", "cls": "query", "alg": alg, "ts": u32s(ts), "np": u32s(np), "db": B(db), "sql": B(sql), "charset": cs, "codes": codes, "obs": o})
+			emitCase(e, M{"fn": "ev.query", "cls": "query", "alg": alg, "ts": u32s(ts), "np": u32s(np), "sid": u32s(sid), "flags": int(flags),
+				"thread4": B(le32(qthread)), "exec4": B(le32(qexec)), "err2": B(le16(qerr16)), "vars": B(vars),
+				"db": B(db), "sql": B(sql), "charset": cs, "codes": codes, "obs": o})
 			// XID / INTVAR / RAND
-			xev := dec(tXid, le64(e.R.Uint64()))
+			xid8 := le64(e.R.Uint64())
+			xev := dec(tXid, xid8)
 			o = hdr(xev)
 			o["is"] = xev.IsXID()
-			emitCase(e, M{"fn": "ev.xid", "cls": "xid", "alg": alg, "ts": u32s(ts), "np": u32s(np), "obs": o})
+			emitCase(e, M{"fn": "ev.xid", "cls": "xid", "alg": alg, "ts": u32s(ts), "np": u32s(np), "sid": u32s(sid), "flags": int(flags), "xid8": B(xid8), "obs": o})
 			ivk := byte(1 + e.R.Intn(2))
 			ivv := e.R.Uint64()
 			iev := dec(tIntVar, append([]byte{ivk}, le64(ivv)...))
@@ -953,14 +969,14 @@ func modeC16(e *Env) {
 			rec = safely(func() { gk, gv, ierr = iev.IntVar(f) })
 			o = hdr(iev)
 			o["err"], o["panic"], o["is"], o["kind"], o["value"] = ierr != nil, rec.panicked, iev.IsIntVar(), int(gk), B(strconv.FormatUint(gv, 10))
-			emitCase(e, M{"fn": "ev.intvar", "cls": "intvar", "alg": alg, "ts": u32s(ts), "np": u32s(np), "kind": int(ivk), "value": B(strconv.FormatUint(ivv, 10)), "obs": o})
+			emitCase(e, M{"fn": "ev.intvar", "cls": "intvar", "alg": alg, "ts": u32s(ts), "np": u32s(np), "sid": u32s(sid), "flags": int(flags), "kind": int(ivk), "value": B(strconv.FormatUint(ivv, 10)), "obs": o})
 			s1, s2 := e.R.Uint64(), e.R.Uint64()
 			dev := dec(tRand, append(le64(s1), le64(s2)...))
 			var g1, g2 uint64
 			rec = safely(func() { g1, g2, _ = dev.Rand(f) })
 			o = hdr(dev)
 			o["panic"], o["is"], o["s1"], o["s2"] = rec.panicked, dev.IsRand(), B(strconv.FormatUint(g1, 10)), B(strconv.FormatUint(g2, 10))
-			emitCase(e, M{"fn": "ev.rand", "cls": "rand", "alg": alg, "ts": u32s(ts), "np": u32s(np), "s1": B(strconv.FormatUint(s1, 10)), "s2": B(strconv.FormatUint(s2, 10)), "obs": o})
+			emitCase(e, M{"fn": "ev.rand", "cls": "rand", "alg": alg, "ts": u32s(ts), "np": u32s(np), "sid": u32s(sid), "flags": int(flags), "s1": B(strconv.FormatUint(s1, 10)), "s2": B(strconv.FormatUint(s2, 10)), "obs": o})
 		}
 	}
 }
